@@ -295,6 +295,16 @@ type rmodel struct {
 	up       []int32
 }
 
+// nilIn: on some path to this reader a converter is handed a nil interface value.
+func (m *rmodel) nilIn() bool {
+	for i := range m.strands {
+		if m.strands[i].NilIn {
+			return true
+		}
+	}
+	return false
+}
+
 func (m *rmodel) total() int {
 	n := 0
 	for _, s := range m.strands {
